@@ -110,6 +110,26 @@ func C13(p *ir.Program, r *report.R) {
 			r.Undecided("K2", sbn+"/order", p.Pos(sb.Pos()), "batch commit / state save not found")
 		} else {
 			r.Check("K2", sbn+"/order/batch.Commit ≺ BlockStoreStateJSON.Save", p.InstrPos(save), ir.Precedes(commit, save) && notBefore(save, commit), "the height descriptor moves only after the data batch is committed")
+			// receipts, the block result and the tx index are written by helper goroutines: the descriptor
+			// that acknowledges the block moves only after they were joined
+			nGo := 0
+			ir.Instrs(sb, func(in ssa.Instruction) {
+				if _, ok := in.(*ssa.Go); ok {
+					nGo++
+				}
+			})
+			if nGo > 0 {
+				wait := firstCall(sb, "sync.WaitGroup.Wait")
+				okW := wait != nil && ir.Precedes(wait.(ssa.Instruction), save.(ssa.Instruction))
+				if okW {
+					ir.Instrs(sb, func(in ssa.Instruction) {
+						if g, ok := in.(*ssa.Go); ok && !ir.Precedes(g, wait.(ssa.Instruction)) {
+							okW = false
+						}
+					})
+				}
+				r.Check("K2", sbn+"/order/goroutines joined ≺ BlockStoreStateJSON.Save", p.InstrPos(save), okW, fmt.Sprintf("the %d writer goroutines are started and joined (WaitGroup.Wait) before the height descriptor is written", nGo))
+			}
 			for _, s := range p.Stores(p.Field("blockchain", "BlockStore.height")) {
 				if s.Fn == sb {
 					r.Check("K2", sbn+"/order/BlockStoreStateJSON.Save ≺ bs.height", p.InstrPos(s.Instr), ir.Precedes(save, s.Instr), "the in-memory height moves last")
